@@ -92,7 +92,7 @@ func TestLossySubscribersSideBySide(t *testing.T) {
 	rapid.Check(t, func(t *rapid.T) {
 		opts := []resource.Option{}
 		store := map[string]int32{}
-		for _, id := range []string{"a", "b", "c"} {
+		for _, id := range []string{"a", "b", "c", ""} {
 			if rapid.Bool().Draw(t, "init-"+id) {
 				store[id] = 0
 				opts = append(opts, resource.WithInitialRecord(id, fmsg(0)))
@@ -132,7 +132,7 @@ func TestLossySubscribersSideBySide(t *testing.T) {
 				lag[k] = 0
 				continue
 			}
-			id := rapid.SampledFrom([]string{"a", "b", "c"}).Draw(t, "id")
+			id := rapid.SampledFrom([]string{"a", "b", "c", ""}).Draw(t, "id")
 			var werr error
 			var returned bool
 			if _, exists := store[id]; exists && rapid.IntRange(0, 2).Draw(t, "del") == 0 {
